@@ -784,6 +784,12 @@ if len(span) < {size}:
 
     fn consume_span(&mut self, keep: usize) {
         if self.offset > 0 {
+            if self.unchecked_code.is_empty() {
+                // Only reserved bits were skipped since the last length
+                // guard: they still have to be present in the span.
+                let offset = self.offset;
+                self.check_size(offset.to_string());
+            }
             self.check_code();
             let offset = self.offset;
             self.code.append(format!("span = span[{}:]", offset - keep));
